@@ -94,7 +94,16 @@ func (w *stateWatcher) Await(
 	select {
 	case <-match:
 	case <-ctx.Done():
-		err = ctx.Err()
+		// Another Await may be matching this entry right now. Once the entry is
+		// de-registered no match can happen any more, and a match that did
+		// happen has been signalled: it takes precedence over the timeout, or
+		// the caller would reject a proposal that the matcher has accepted.
+		w.deregister(state)
+		select {
+		case <-match:
+		default:
+			err = ctx.Err()
+		}
 	}
 	return
 }
